@@ -1583,6 +1583,8 @@ def finding_matches(entry, job, failure):
     m = entry.get("match")
     if not m or entry.get("status") != "known":
         return False
+    if m.get("never_in_sweep"):
+        return False   # the generators never produce this finding's scenario: only its stored witness is replayed
     if m.get("kind") and m["kind"] != job.kind:
         return False
     e = getattr(job, "e", None)
